@@ -5,7 +5,7 @@ from ..conccheck import run_conc, ob_ack, ob_conservation
 from ..framework import Run, load_known
 from .c03 import CONC_ASSUMPTIONS, base
 
-PROGRAMS_QUICK = ['CM', 'MC', 'QM', 'MQ', 'CC', 'CQ', 'QC', 'QQ', 'CA', 'AC', 'QA', 'AQ']
+PROGRAMS_QUICK = ['CM', 'MC', 'QM', 'MQ', 'CC', 'CQ', 'QC', 'QQ', 'CA', 'AC', 'QA', 'AQ', 'PM', 'MP', 'BM', 'MB', 'XM', 'MX', 'PC', 'CP', 'XC', 'CX', 'BQ', 'QB']
 
 
 def obls(P):
